@@ -39,6 +39,8 @@ def snapshot(d, base):
     out = {}
     b = os.path.basename(base)
     for n in os.listdir(d):
+        if os.path.isdir(os.path.join(d, n)):
+            continue            # a directory put in the way of a backup name: not a log file
         if n == b:
             idx = 0
         elif n.startswith(b + '.') and n[len(b) + 1:].isdigit() and str(int(n[len(b) + 1:])) == n[len(b) + 1:]:
